@@ -34,6 +34,13 @@ const (
 	KSb KS = "beta"
 )
 
+type Small uint8
+
+const (
+	S0 Small = iota
+	S1
+)
+
 type IdUserAccount int64
 type IdTeam int64
 type IdLinkRow int64
@@ -100,6 +107,9 @@ type UserAccount struct {
 	FEnumI  KI
 	FEnumS  KS
 	FEnums  []KI
+	FSmall  Small
+	FSmalls []Small
+	FSmall3 [3]Small
 	FCoord  Coord
 	FMixed  Mixed
 	FMixed2 Mixed
@@ -118,8 +128,9 @@ type UserAccount struct {
 }
 
 type Team struct {
-	Name string
-	Id   IdTeam
+	Name   string
+	Id     IdTeam
+	FMixed Mixed
 }
 
 // shared primary key: the id column itself refers to another table
@@ -209,6 +220,9 @@ func TestGovcHarness_Schema(t *testing.T) {
 		"FEnumI integer CHECK (FEnumI IN (0, 1, 2)) NOT NULL",
 		"FEnumS text CHECK (FEnumS IN ('alpha', 'beta')) NOT NULL",
 		"FEnums integer[]",
+		"FSmall smallint CHECK (FSmall IN (0, 1)) NOT NULL",
+		"FSmalls smallint[]",
+		"FSmall3 smallint[] CHECK (array_length(FSmall3, 1) = 3) NOT NULL",
 		"FCoord Coord NOT NULL",
 		"FMixed jsonb NOT NULL",
 		"FMixed2 jsonb NOT NULL",
@@ -234,7 +248,9 @@ func TestGovcHarness_Schema(t *testing.T) {
 		expect(fmt.Sprintf("column %d is %q (got %q)", i, w, g), g == w)
 	}
 	// the id field is the primary key wherever it stands
-	expect("teams: Name first, Id serial PRIMARY KEY second", len(tables["teams"]) == 2 && tables["teams"][0] == "Name text NOT NULL" && tables["teams"][1] == "Id serial PRIMARY KEY")
+	expect("teams: Name first, Id serial PRIMARY KEY second", len(tables["teams"]) == 3 && tables["teams"][0] == "Name text NOT NULL" && tables["teams"][1] == "Id serial PRIMARY KEY")
+	// the same column name with the same jsonb type in two tables: each table keeps its own CHECK
+	expect("teams.FMixed has its own validator CHECK", strings.Count(out, "ALTER TABLE teams ADD CONSTRAINT FMixed_gomacro CHECK (") == 1)
 
 	// ---- composite type declaration for the local all-integer struct
 	expect("composite type declared once", strings.Count(out, "CREATE TYPE Coord AS (X integer, Y integer);") == 1)
